@@ -510,38 +510,38 @@ func checkHighestCommon(c *Ctx, rule string, hf *ssa.Function) {
 		return
 	}
 
-		hname := core.FuncName(hf)
-		// (1) some loop-carried value is replaced only under  element > carried
-		okMax := false
-		for _, b := range hf.Blocks {
-			for _, in := range b.Instrs {
-				ph, ok := in.(*ssa.Phi)
-				if !ok || !core.InLoop(b) {
-					continue
-				}
-				if bt, ok := ph.Type().Underlying().(*types.Basic); !ok || bt.Kind() != types.Uint8 {
-					continue
-				}
-				for _, b2 := range hf.Blocks {
-					for i := range b2.Succs {
-						for _, f := range core.EdgeFacts(b2, i) {
-							if core.CmpFact(f, func(op token.Token, x, y ssa.Value) bool {
-								return op == token.GTR && core.FlowsFrom(y, map[ssa.Value]bool{ph: true}) && !core.FlowsFrom(x, map[ssa.Value]bool{ph: true})
-							}) {
-								okMax = true
-							}
+	hname := core.FuncName(hf)
+	// (1) some loop-carried value is replaced only under  element > carried
+	okMax := false
+	for _, b := range hf.Blocks {
+		for _, in := range b.Instrs {
+			ph, ok := in.(*ssa.Phi)
+			if !ok || !core.InLoop(b) {
+				continue
+			}
+			if bt, ok := ph.Type().Underlying().(*types.Basic); !ok || bt.Kind() != types.Uint8 {
+				continue
+			}
+			for _, b2 := range hf.Blocks {
+				for i := range b2.Succs {
+					for _, f := range core.EdgeFacts(b2, i) {
+						if core.CmpFact(f, func(op token.Token, x, y ssa.Value) bool {
+							return op == token.GTR && core.FlowsFrom(y, map[ssa.Value]bool{ph: true}) && !core.FlowsFrom(x, map[ssa.Value]bool{ph: true})
+						}) {
+							okMax = true
 						}
 					}
 				}
 			}
 		}
-		r.Check(okMax, rule, hname+" running-maximum", p.Pos(hf.Pos()), "the result is a running maximum: replaced only by a larger common value", "the common version returned is not selected as the LARGEST common value (e.g. the first match in list order): the two ends of a transfer, which call it with the lists swapped, can settle on different versions")
-		// (2) success is decided only after the loops: no success return from inside a loop
-		okAll := true
-		for _, ret := range core.Returns(hf) {
-			if core.InLoop(ret.Block()) && core.MayBeNilErr(ret.Results[len(ret.Results)-1], nil, ret.Block(), nil) {
-				okAll = false
-			}
+	}
+	r.Check(okMax, rule, hname+" running-maximum", p.Pos(hf.Pos()), "the result is a running maximum: replaced only by a larger common value", "the common version returned is not selected as the LARGEST common value (e.g. the first match in list order): the two ends of a transfer, which call it with the lists swapped, can settle on different versions")
+	// (2) success is decided only after the loops: no success return from inside a loop
+	okAll := true
+	for _, ret := range core.Returns(hf) {
+		if core.InLoop(ret.Block()) && core.MayBeNilErr(ret.Results[len(ret.Results)-1], nil, ret.Block(), nil) {
+			okAll = false
 		}
-		r.Check(okAll, rule, hname+" considers-every-element", p.Pos(hf.Pos()), "no success exit from inside a loop: every element is considered", "the function can return a version before having looked at every element of the lists")
+	}
+	r.Check(okAll, rule, hname+" considers-every-element", p.Pos(hf.Pos()), "no success exit from inside a loop: every element is considered", "the function can return a version before having looked at every element of the lists")
 }
